@@ -19,15 +19,17 @@ from . import common
 CMD_PY = r'''
 import json, os, sys
 b = json.load(open(os.path.join(os.path.dirname(os.path.abspath(__file__)), 'beh.json'), encoding='utf-8'))
-sys.stdout.write(b['stdout'])
-sys.stderr.write(b['stderr'])
+def _t(x):
+    return x.replace('{TMPDIR}', os.environ.get('TMPDIR', ''))
+sys.stdout.write(_t(b['stdout']))
+sys.stderr.write(_t(b['stderr']))
 for name, spec in b['files'].items():
     if spec is None:
         continue
     path = name if not name.startswith('$TMPDIR/') else os.path.join(os.environ['TMPDIR'], name[8:])
     if spec['kind'] == 'text':
         with open(path, 'w', encoding=spec.get('encoding', 'utf-8'), newline='') as f:
-            f.write(spec['text'])
+            f.write(_t(spec['text']))
     else:
         with open(path, 'wb') as f:
             f.write(bytes(spec['bytes']))
@@ -50,6 +52,16 @@ def sha(path):
         return hashlib.sha1(f.read()).hexdigest()
 
 
+def sha_normalised(path, wd):
+    """Content id that does not depend on which scratch directory $TMPDIR pointed to when the file was written."""
+    with open(path, 'rb') as f:
+        data = f.read()
+    base = re.escape((wd + '_tmp').encode('utf-8'))
+    data = re.sub(base + rb'/tmp[A-Za-z0-9_]+', b'{TMPDIR}', data)
+    data = data.replace((wd + '_tmp').encode('utf-8'), b'{TMPDIR}')
+    return hashlib.sha1(data).hexdigest()
+
+
 def snapshot(d):
     out = {}
     for root, dirs, files in os.walk(d):
@@ -58,7 +70,7 @@ def snapshot(d):
             rel = os.path.relpath(p, d)
             if rel.startswith('__pycache__') or rel.endswith('.pyc'):
                 continue
-            out[rel] = sha(p)
+            out[rel] = sha_normalised(p, d)
     return out
 
 
@@ -76,17 +88,27 @@ def text_of(rnd, nlines, allow_specific=True, token_pool=()):
     return '\n'.join(lines) + ('\n' if rnd.random() < 0.85 else '')
 
 
-def make_case(rnd, wd, shape):
+def make_case(rnd, wd, shape, tmpdir_tokens_with_one_iteration=True):
     """shape: list of output names among 'o1' (text file), 'o2' (binary file).  Returns the case description."""
     os.makedirs(wd, exist_ok=True)
     import getpass
     import socket
+    # {TMPDIR} is replaced by the command itself with the value of $TMPDIR at the time it runs
+    iterations = rnd.choice([1, 2, 2, 3])
     tokens = [socket.gethostname(), getpass.getuser(), wd]
+    if iterations > 1 or tmpdir_tokens_with_one_iteration:
+        tokens += ['{TMPDIR}', '{TMPDIR}/scratch.dat']
     files = {}
     names = {}
     if 'o1' in shape:
         names['o1'] = rnd.choice(['out1.txt', 'report.log', 'result.csv', 'ünï.txt'])
         files[names['o1']] = {'kind': 'text', 'text': text_of(rnd, rnd.randint(1, 4), token_pool=tokens)}
+    if 'o4' in shape:
+        # two text outputs whose names differ only in characters that are not legal in an identifier
+        a, b = rnd.choice([('out-1.txt', 'out_1.txt'), ('a b.csv', 'a_b.csv'), ('report.1.log', 'report-1.log')])
+        names['o1'], names['o4'] = a, b
+        files = {a: {'kind': 'text', 'text': text_of(rnd, rnd.randint(1, 3), token_pool=tokens)},
+                 b: {'kind': 'text', 'text': text_of(rnd, rnd.randint(1, 3), allow_specific=False)}}
     if 'o2' in shape:
         names['o2'] = rnd.choice(['data.png', 'blob.bin', 'image.jpg', 'archive.dat'])
         files[names['o2']] = {'kind': 'binary', 'bytes': [rnd.randrange(256) for _ in range(rnd.randint(1, 40))] + [0, 255, 128]}
@@ -94,8 +116,11 @@ def make_case(rnd, wd, shape):
         names['o3'] = '$TMPDIR/tmpout.txt'
         files[names['o3']] = {'kind': 'text', 'text': text_of(rnd, rnd.randint(1, 3), allow_specific=False)}
     beh = {'stdout': text_of(rnd, rnd.randint(0, 4), token_pool=tokens) if rnd.random() < 0.85 else '',
-           'stderr': text_of(rnd, rnd.randint(1, 2), allow_specific=False) if rnd.random() < 0.4 else '',
+           'stderr': text_of(rnd, rnd.randint(1, 3), allow_specific=False, token_pool=tokens) if rnd.random() < 0.5 else '',
            'files': files, 'exit': rnd.choice([0, 0, 0, 3])}
+    if beh['stderr'] and rnd.random() < 0.6:
+        # a stderr line that mentions the machine (host / user / working directory)
+        beh['stderr'] = beh['stderr'].rstrip('\n') + '\nwarning: running as %s\n' % rnd.choice(tokens[:3])
     with open(os.path.join(wd, 'cmd.py'), 'w', encoding='utf-8') as f:
         f.write(CMD_PY)
     with open(os.path.join(wd, 'beh.json'), 'w', encoding='utf-8') as f:
@@ -122,7 +147,6 @@ def make_case(rnd, wd, shape):
         with open(os.path.join(wd, n), 'w') as f:
             f.write('left over from an earlier run\n')
     flags = []
-    iterations = rnd.choice([1, 2, 2, 3])
     flags += ['-n', str(iterations)]
     no_stdout = rnd.random() < 0.15
     no_stderr = rnd.random() < 0.15
@@ -141,7 +165,7 @@ def make_case(rnd, wd, shape):
     elif refs_mode == 'glob':
         refs = ['*.' + names[k].rsplit('.', 1)[1] for k in sorted(names)]
     script = rnd.choice(['test_job.py', 'test_job', os.path.join(wd, 'test_job.py')])
-    return {'wd': wd, 'beh': beh, 'names': names, 'pre': pre, 'flags': flags, 'iterations': iterations, 'no_stdout': no_stdout,
+    return {'wd': wd, 'beh': beh, 'names': names, 'tokens': tokens, 'pre': pre, 'flags': flags, 'iterations': iterations, 'no_stdout': no_stdout,
             'no_stderr': no_stderr, 'nonzero': nonzero, 'refs': refs, 'refs_mode': refs_mode, 'script': script}
 
 
@@ -203,3 +227,36 @@ def edit_first_line(text, rnd):
         else:
             lines[0] = lines[0] + ' changed'
     return '\n'.join(lines)
+
+
+RE_METHOD = re.compile(r"def (test_\w+)\(self\):(?:(?!\n    def ).)*?self\.assert\w+\(\s*os\.path\.join\(self\.(?:cwd|tmpdir), '((?:[^'\\\\]|\\\\.)*)'\)", re.S)
+
+
+def script_test_map(case):
+    """{output file name as written in the script: name of the test method that checks it} (last definition wins,
+    as in Python)."""
+    try:
+        text = open(os.path.join(case['wd'], 'test_job.py'), encoding='utf-8').read()
+    except OSError:
+        return {}
+    out = {}
+    for m in RE_METHOD.finditer(text):
+        try:
+            fname = eval("'" + m.group(2) + "'")
+        except Exception:
+            fname = m.group(2)
+        out[os.path.basename(fname)] = m.group(1)
+    return out
+
+
+def edit_token_line(text, rnd, token):
+    """Remove a whole line that mentions the token, or (when there is none) add one."""
+    lines = text.split('\n')
+    idx = [i for i, l in enumerate(lines) if token in l]
+    if idx:
+        lines.pop(rnd.choice(idx))
+        return '\n'.join(lines), 'line with a machine-specific token removed'
+    lines.insert(1 if len(lines) > 1 else len(lines), 'note: ' + token + ' seen')
+    if len(lines) == 1 or (len(lines) == 2 and lines[0] == ''):
+        return 'note: ' + token + ' seen\n' + text, 'line with a machine-specific token added'
+    return '\n'.join(lines), 'line with a machine-specific token added'
